@@ -16,9 +16,13 @@ import (
 )
 
 type tcase struct {
-	family string
-	src    string
+	family  string
+	src     string
+	tag     string // optional finer histogram bucket (prologue / encoding name)
+	viaFile bool   // through parser.Parse of a file on disk holding exactly these bytes, instead of parser.ParseString
 }
+
+func mkCase(family, src string) tcase { return tcase{family: family, src: src} }
 
 // repoTemplates returns every .templ file under the repository (sorted), plus the parser's benchmark template.
 func repoTemplates() (names []string, srcs []string) {
@@ -108,7 +112,8 @@ func tokens(s string) []string { return reTok.FindAllString(s, -1) }
 var insertPool = []string{"{", "}", "<", ">", "\"", "'", "`", "</", "/>", "{{", "}}", "@", "if ", "for ", "switch ", "case ", "default:", "else", "} else {", "} else if ", "...",
 	"templ ", "css ", "script ", "package ", "\n", "\r\n", "\t", " ", "é", "日本", "\u00a0", "\u2003", "\u0085", "\xff", "\xc3", "//", "/*", "*/", "<script>", "</script>", "<style>", "</style>", "<!--", "-->",
 	"<div>", "</div>", "<br>", "</br>", "<a href={ x }>", "{ x }", "{ children... }", "{! x }", "@x()", "{{ x := 1 }}", "?={ true }", "={", "=", "(", ")", "[", "]", ":", ";", ",", "func", "\\", "0", "x",
-	"<!DOCTYPE html>", "{ x... }", "class={", "if x {", "for _, x := range y {", "switch x {"}
+	"<!DOCTYPE html>", "{ x... }", "class={", "if x {", "for _, x := range y {", "switch x {",
+	"\ufeff", "\x00", "\xcb", "\x80", "\ufffd", "func ", "func() {", "'", "/* é", "\f"}
 
 // mutate applies one structure-aware mutation. The second result names the mutation family.
 func mutate(r *rng.R, s string) (string, string) {
